@@ -12,8 +12,15 @@
                                            when it is reachable and v is the highest reachable version of p;
       [u_fuel U rootreqs]                  number of nodes of the graph + 1: an explicit sufficient fuel, so the
                                            OutOfFuel outcome (a hang) is excluded, not assumed away.
-    Module identity is the path including its "@vN" suffix, so several majors of one project are distinct paths. *)
-From Dawn Require Import Mvs.Spec Mvs.Proofs_C10.
+    Module identity is the path including its "@vN" suffix, so several majors of one project are distinct paths.
+
+    The download cache (Mvs/Cache.v): any number of resolveProject calls, of any number of resolvers and
+    processes, run against one cache directory ([wreach deliver W w]: the world [w] = (cache directory, calls) is
+    reachable from the empty cache by steps of those calls in any interleaving, each of which may fail, and by
+    kills between any two steps); [deliver n] is the sequence of writes the repository's FetchRevision performs
+    for project version [n]; [disk_complete]: every directory in the cache is a complete download;
+      [dawn_build_list_via obs ...]        BuildList when resolveProject answers [obs n] for project version n. *)
+From Dawn Require Import Mvs.Spec Mvs.Proofs_C10 Mvs.Cache Mvs.Proofs_Cache.
 
 (** every processing order, every finite universe (cycles included), every root requirement list:
     an error exactly when a reachable requirement cannot be resolved, otherwise exactly the MVS solution *)
@@ -66,6 +73,37 @@ Theorem build_list_no_panic_no_hang :
 Proof. exact Proofs_C10.build_list_no_panic_no_hang. Qed.
 Print Assumptions build_list_no_panic_no_hang.
 
+(** the state of the download cache: whatever resolvers ran or are running against the cache directory, whichever
+    of their downloads failed half-way and whichever were killed, a directory found in the cache is a complete
+    download (FetchProject publishes with one rename of a private staging directory) *)
+Theorem cache_entries_complete :
+  forall (U : universe) (deliver : node -> option (list wr)) (W : node -> Prop),
+    deliver_sound U deliver W -> key_sound U W ->
+    forall (D : disk) (cs : list call), wreach deliver W (D, cs) -> disk_complete deliver W D.
+Proof. exact Proofs_Cache.cache_entries_complete. Qed.
+Print Assumptions cache_entries_complete.
+
+(** ... so a resolveProject call in which no operation failed returns the project's own configuration, found in
+    the cache or downloaded, alone or overtaken by another resolver *)
+Theorem resolve_via_cache :
+  forall (U : universe) (deliver : node -> option (list wr)) (W : node -> Prop),
+    deliver_sound U deliver W -> key_sound U W ->
+    forall (D : disk) (cs : list call) (n : node) (r : option summary),
+      wreach deliver W (D, cs) -> In (mkCall n (PRet false r)) cs -> r = resolve_project U n.
+Proof. exact Proofs_Cache.resolve_via_cache. Qed.
+Print Assumptions resolve_via_cache.
+
+(** ... and the build list of a run whose resolveProject calls were answered out of ANY such states of the cache
+    is the build list of the universe (the MVS solution, by build_list_spec) *)
+Theorem build_list_cache_independent :
+  forall (U : universe) (deliver : node -> option (list wr)) (W : node -> Prop),
+    deliver_sound U deliver W -> key_sound U W -> requirements_closed U W ->
+    forall (obs : node -> option summary) (pick : list node -> nat) (fuel : nat) (root : config),
+      observed deliver W obs -> (forall m, In m (map snd root) -> fst m = [] \/ W m) ->
+      dawn_build_list_via obs pick fuel root = dawn_build_list pick fuel U root.
+Proof. exact Proofs_Cache.build_list_cache_independent. Qed.
+Print Assumptions build_list_cache_independent.
+
 (** the version order behind "highest": a total order on canonical versions with "none" least and the root's
     empty version greatest *)
 Theorem version_order_total :
@@ -90,3 +128,29 @@ Example c10_example :
   dawn_build_list (fun _ => O) 20 U [(a, (a, v 1 0 0)); (b, (b, v 1 0 0))]
   = Ok [([], VRoot); (a, v 1 0 0); (b, v 1 0 0); (c, v 1 2 0); (c2, v 2 0 0)].
 Proof. vm_compute. reflexivity. Qed.
+
+(** the hypotheses of the cache theorems are satisfiable: the universe above, every project delivered as BUILD.dawn,
+    then dawn.toml created empty, then dawn.toml complete; [W] = the project versions that occur in it *)
+Example c10_cache_example :
+  let a := [114; 47; 97] in let b := [114; 47; 98] in let c := [114; 47; 99] in let c2 := [114; 47; 99; 64; 118; 50] in
+  let v x y z := VSem (mkSV x y z []) in
+  let U := mkU [114] [((a, v 1 0 0), 1); ((b, v 1 0 0), 1); ((c, v 1 1 0), 1); ((c, v 1 2 0), 2); ((c2, v 2 0 0), 2)]
+               [((a, 1), mkSum [] [(c, v 1 1 0); (c2, v 2 0 0)]); ((b, 1), mkSum [] [(c, v 1 2 0)]);
+                ((c, 1), mkSum [] []); ((c, 2), mkSum [] [(a, v 1 0 0)])] [] [] [] in
+  let deliver n := match resolve_project U n with
+                   | Some s => Some [([66; 85; 73; 76; 68; 46; 100; 97; 119; 110], Blob);
+                                     (s_dawn_toml, Cfg (Some (mkSum [] []))); (s_dawn_toml, Cfg (Some s))]
+                   | None => None
+                   end in
+  let W n := In n [(a, v 1 0 0); (b, v 1 0 0); (c, v 1 1 0); (c, v 1 2 0); (c2, v 2 0 0)] in
+  deliver_sound U deliver W /\ key_sound U W /\ requirements_closed U W.
+Proof.
+  cbv zeta. split; [|split].
+  - intros n Hn. simpl in Hn. repeat (destruct Hn as [<-|Hn]; [vm_compute; reflexivity|]). contradiction.
+  - intros n m Hn Hm. simpl in Hn, Hm.
+    repeat (destruct Hn as [<-|Hn]; [repeat (destruct Hm as [<-|Hm]; [vm_compute; congruence|]); contradiction|]).
+    contradiction.
+  - intros n s m Hn. simpl in Hn.
+    repeat (destruct Hn as [<-|Hn]; [vm_compute; intros E; injection E as <-; simpl; intuition congruence|]).
+    contradiction.
+Qed.
